@@ -117,7 +117,7 @@ def CRLF : Bytes := [CR, LF]
 /-- command line `line`, then `echo $?`, on a console that answers (out, status) -/
 def winsOf (prompt ovr line out : Bytes) (status : Nat) : List Win :=
   [ ⟨line.length + 2, Tty.cook out ++ prompt, ovr⟩,
-    ⟨Shell.echoStatusLine.length + 2, Shell.statusBytes status ++ CRLF ++ prompt, prompt⟩ ]
+    ⟨echoStatus.length + 2, statusBytes status ++ CRLF ++ prompt, prompt⟩ ]
 
 /-- a window can be read at all (else tbot waits for ever) and only in one way -/
 def Win.good (w : Win) : Bool := w.prompt.isSuffixOf w.body && onlyEnd w.prompt w.body
@@ -140,8 +140,8 @@ def sums : Nat → List Nat → List Nat
 def effPrompt (prompt : Bytes) (args : List Bytes) : Bytes :=
   if args.head? == some crcName && prompt == crcPrompt then Params.ubootCrcOverride else prompt
 
-def setenvArgs (var x : Bytes) : List Bytes := [str "setenv", var, x]
-def printenvArgs (var : Bytes) : List Bytes := [str "printenv", var]
+def setenvArgs (var x : Bytes) : List Bytes := [setenvB, var, x]
+def printenvArgs (var : Bytes) : List Bytes := [printenvB, var]
 
 def cmdWins (prompt : Bytes) (args : List Bytes) (out : Bytes) (status : Nat) : List Win :=
   winsOf prompt (effPrompt prompt args) (Hush.escape args) out status
